@@ -203,6 +203,84 @@ func main() {
 		} else {
 			e.Strs("wrapWithSource", assignsTo(f, fd.Body, "sourced[i]"), "WrapWithSource: the source of a leaf is its position")
 		}
+		// unit conversions of the hops (store -> proxy -> client)
+		exprsIn := func(rel, recv, fn string, pick func(f *lib.File, n ast.Node) (string, bool)) ([]string, error) {
+			f, err := r.Load(rel)
+			if err != nil {
+				return nil, err
+			}
+			fd := f.Func(recv, fn)
+			if fd == nil {
+				return nil, fmt.Errorf("%s not found in %s", fn, rel)
+			}
+			var res []string
+			ast.Inspect(fd.Body, func(n ast.Node) bool {
+				if s, ok := pick(f, n); ok {
+					res = append(res, s)
+				}
+				return true
+			})
+			return res, nil
+		}
+		retExpr := func(f *lib.File, n ast.Node) (string, bool) {
+			if x, ok := n.(*ast.ReturnStmt); ok && len(x.Results) == 1 {
+				return f.Render(x.Results[0]), true
+			}
+			return "", false
+		}
+		kvOf := func(key string) func(f *lib.File, n ast.Node) (string, bool) {
+			return func(f *lib.File, n ast.Node) (string, bool) {
+				if x, ok := n.(*ast.KeyValueExpr); ok && f.Render(x.Key) == key {
+					return f.Render(x.Value), true
+				}
+				return "", false
+			}
+		}
+		for _, t := range []struct {
+			name, rel, recv, fn, what string
+			pick                      func(f *lib.File, n ast.Node) (string, bool)
+		}{
+			{"midTimeExpr", "seq/seq.go", "MID", "Time", "MID.Time()", retExpr},
+			{"storeBinTs", "storeapi/grpc_search.go", "", "buildSearchResponse", "buildSearchResponse: Ts of a time-series bin", kvOf("Ts")},
+			{"proxyBinMid", "proxy/search/ingestor.go", "", "responseToQPR", "responseToQPR: MID of a time-series bin", func(f *lib.File, n ast.Node) (string, bool) {
+				if x, ok := n.(*ast.KeyValueExpr); ok && f.Render(x.Key) == "MID" && strings.Contains(f.Render(x.Value), "bin.") {
+					return f.Render(x.Value), true
+				}
+				return "", false
+			}},
+			{"apiBucketTs", "proxyapi/grpc_v1.go", "", "makeProtoAggregation", "makeProtoAggregation: guard and Ts of a bucket", func(f *lib.File, n ast.Node) (string, bool) {
+				switch x := n.(type) {
+				case *ast.IfStmt:
+					return f.Render(x.Cond), true
+				case *ast.AssignStmt:
+					if len(x.Lhs) == 1 && f.Render(x.Lhs[0]) == "bucket.Ts" {
+						return f.Render(x.Rhs[0]), true
+					}
+				}
+				return "", false
+			}},
+			{"apiHistTs", "proxyapi/grpc_v1.go", "", "makeProtoHistogram", "makeProtoHistogram: Ts of a bucket", func(f *lib.File, n ast.Node) (string, bool) {
+				if x, ok := n.(*ast.AssignStmt); ok && len(x.Lhs) == 1 && f.Render(x.Lhs[0]) == "bucket.Ts" {
+					return f.Render(x.Rhs[0]), true
+				}
+				return "", false
+			}},
+		} {
+			if v, err := exprsIn(t.rel, t.recv, t.fn, t.pick); err != nil {
+				e.Missing(t.name, err)
+			} else {
+				e.Strs(t.name, v, t.what)
+			}
+		}
+		{
+			a, err1 := exprsIn("seq/seq.go", "", "MIDToTime", retExpr)
+			b, err2 := exprsIn("seq/seq.go", "", "MIDToDuration", retExpr)
+			if err1 != nil || err2 != nil {
+				e.Missing("midToTimeExpr", fmt.Sprint(err1, err2))
+			} else {
+				e.Strs("midToTimeExpr", append(a, b...), "seq.MIDToTime / MIDToDuration")
+			}
+		}
 		se, err := r.Load("frac/processor/search.go")
 		if err != nil {
 			e.Missing("search.go", err)
@@ -273,5 +351,5 @@ func main() {
 			})
 			e.Strs("extractTimeRule", rule, "provideExtractTimeFunc: guard and the returned bin expressions")
 		}
-	}, "consts/consts.go", "seq/qpr.go", "frac/processor/eval_tree.go", "frac/processor/search.go", "frac/processor/aggregator.go", "frac/active_index.go", "frac/sealed_index.go", "node/sourced_node_wrapper.go")
+	}, "consts/consts.go", "seq/qpr.go", "frac/processor/eval_tree.go", "frac/processor/search.go", "frac/processor/aggregator.go", "frac/active_index.go", "frac/sealed_index.go", "node/sourced_node_wrapper.go", "seq/seq.go", "storeapi/grpc_search.go", "proxy/search/ingestor.go", "proxyapi/grpc_v1.go")
 }
